@@ -1,0 +1,35 @@
+//! Verification-only hooks. Compiled only with `--cfg agdb_verif`; with the flag
+//! off nothing in this module exists and shipped behaviour is unchanged.
+
+use std::sync::Mutex;
+use std::sync::atomic::AtomicI64;
+use std::sync::atomic::Ordering;
+
+static CLOCK_OFFSET_S: AtomicI64 = AtomicI64::new(0);
+static TASK_DELAYS: Mutex<Option<Box<dyn FnMut(u64) -> u64 + Send>>> = Mutex::new(None);
+
+/// Simulator-owned offset (seconds) added to the wall clock read by token expiry.
+pub(crate) fn set_clock_offset(seconds: i64) {
+    CLOCK_OFFSET_S.store(seconds, Ordering::SeqCst);
+}
+
+pub(crate) fn clock_offset() -> i64 {
+    CLOCK_OFFSET_S.load(Ordering::SeqCst)
+}
+
+/// Installs the simulator's choice of how many times the execution task of log
+/// `index` yields before it starts (models the start order a multi-threaded runtime can produce).
+pub(crate) fn set_task_delays(f: Option<Box<dyn FnMut(u64) -> u64 + Send>>) {
+    *TASK_DELAYS.lock().unwrap() = f;
+}
+
+pub(crate) async fn task_start(log_index: u64) {
+    let yields = match TASK_DELAYS.lock().unwrap().as_mut() {
+        Some(f) => f(log_index),
+        None => 0,
+    };
+
+    for _ in 0..yields {
+        tokio::task::yield_now().await;
+    }
+}
